@@ -4,7 +4,7 @@
    /repo/src by translate/tr_scope.py on every run. *)
 From Coq Require Import List NArith ZArith Bool.
 From GD Require Import C09.Names C09.NamesProofs C09.Scope C09.Alias C09.AliasProofs C09.ScopeProofs C09.Main
-  Gen.ScopeParams.
+  C09.Api Gen.ScopeParams.
 Import ListNotations.
 Open Scope N_scope.
 
@@ -157,6 +157,34 @@ Proof. exact resolves_to_unique. Qed.
 
 Theorem alias_spec_sound : forall ents k t x, follow ents k t = Some x -> resolves_to ents t x.
 Proof. exact follow_sound. Qed.
+
+(* the complete result of gd_open -- fragments, entries, every alias with its
+   ultimate target, the reference field found through aliases -- equals the
+   Standards' for the code as it is, whenever the entry names of the result are
+   pairwise different (an invariant of every run that defines no name with a
+   leading dot; taken as a premise here) *)
+Theorem open_agrees : forall t po, tree_plain t = true ->
+  interp_spec_pre t = Ok po -> uniq (po_entries po) ->
+  interp_impl code_params t = interp_spec t.
+Proof. exact fin_agrees. Qed.
+
+(* API-built inclusions, fragment-attribute part: gd_include_affix / gd_include_ns
+   with the parent's encoding and byte order as flags create the record /INCLUDE
+   creates; gd_alter_affixes / gd_fragment_namespace give a fragment the namespace,
+   prefix and suffix the parser computes for the equivalent /INCLUDE token *)
+Theorem api_include_as_parsed : forall P st a st1,
+  p_ped (i_p st) = false -> p_std (i_p st) = prm_std P -> p_ns (i_p st) = [] ->
+  impl_enter P a st = Ok st1 -> prm_enc_inherit P = true ->
+  api_include P (i_f st) (i_nfrag st) (t_enc (f_set (i_f st))) (t_end (f_set (i_f st))) a = Ok (i_f st1).
+Proof. exact include_affix_as_parsed_inherit. Qed.
+
+Theorem api_alter_affixes_as_parsed : forall P parent enc big c ns px sx r,
+  prm_nullns P = true -> nodot px = true -> (c =? cDOT) = false ->
+  match f_ns parent with Some [] => False | _ => True end ->
+  set_affixes P (api_pstate P enc big) parent ((c :: ns) ++ cDOT :: px) sx = Ok r ->
+  pvers_ge (api_pstate P enc big) (g_nsaffix P) = true ->
+  let '(ns', px', sx', _) := r in api_update parent (c :: ns) px sx = (ns', px', sx').
+Proof. exact alter_affixes_as_parsed. Qed.
 
 (* the hypotheses are satisfiable *)
 Example params_ok_inhabited : params_ok spec_params.
